@@ -50,11 +50,15 @@ pub struct JGenCfg {
   pub dynamic: usize,      // percent of imports that are dynamic
   pub https_imports: usize, // percent of imports that are https URLs into the registry
   pub weird_exports: usize,
+  pub partial_info: usize, // percent of files left out of an embedded module graph
+  pub stale_info: usize,   // percent of embedded infos that describe another source
+  pub dirty_cache: bool,   // the file cache may hold other bytes or faults
+  pub manifest_faults: usize, // percent of manifest entries that are tampered / unsupported / missing (plus faults/2)
 }
 
 impl Default for JGenCfg {
   fn default() -> Self {
-    JGenCfg { faults: 12, locker: 40, prefer_cached: 30, stale_meta: 15, modinfo: 60, dynamic: 20, https_imports: 15, weird_exports: 10 }
+    JGenCfg { faults: 12, locker: 40, prefer_cached: 30, stale_meta: 15, modinfo: 60, dynamic: 20, https_imports: 15, weird_exports: 10, partial_info: 12, stale_info: 15, dirty_cache: true, manifest_faults: 4 }
   }
 }
 
@@ -223,7 +227,7 @@ pub fn gen_jcase(rng: &mut Rng, cfg: &JGenCfg) -> JCase {
       let url = format!("{}{}", base, p);
       let honest = sha(&contents[&url]);
       match rng.below(100) {
-        x if x < 4 + cfg.faults / 2 => {
+        x if x < cfg.manifest_faults + cfg.faults / 2 => {
           if rng.chance(50) {
             manifest.insert(p.to_string(), serde_json::json!({"size": 1, "checksum": format!("sha256-{}", sha(b"tampered"))}));
             c.notes.push(format!("manifest checksum of {} does not match the served bytes", url));
@@ -264,12 +268,12 @@ pub fn gen_jcase(rng: &mut Rng, cfg: &JGenCfg) -> JCase {
     if rng.chance(cfg.modinfo) {
       let mut mg = serde_json::Map::new();
       for p in &plan.paths {
-        if rng.chance(12) {
+        if rng.chance(cfg.partial_info) {
           continue; // no embedded info for this file
         }
         let url = format!("{}{}", base, p);
         // honest: the analysis of the served source; stale: of another rendering
-        let text = if rng.chance(85) {
+        let text = if !rng.chance(cfg.stale_info) {
           String::from_utf8(contents[&url].clone()).unwrap()
         } else {
           c.notes.push(format!("embedded module info of {} is stale", url));
@@ -350,11 +354,11 @@ pub fn gen_jcase(rng: &mut Rng, cfg: &JGenCfg) -> JCase {
           c.world.only_entries.insert(url.clone(), raw_entry(b.clone()));
         }
       }
-      x if x < 32 => {
+      x if x < 32 && cfg.dirty_cache => {
         c.world.only_entries.insert(url.clone(), raw_entry(b"export const stale = 1;".to_vec()));
         c.notes.push(format!("cache holds other bytes for {}", url));
       }
-      x if x < 36 => {
+      x if x < 36 && cfg.dirty_cache => {
         let (e, what) = fault_entry(rng, &url, &all_files);
         c.notes.push(format!("cache-only load of {} answers {}", url, what));
         c.world.only_entries.insert(url.clone(), e);
